@@ -156,12 +156,10 @@ theorem step_op_second (vars : List Str) (off : Nat) (out : List Tok) :
   refine ⟨?_, ?_, ?_, ?_, ?_⟩ <;> lex_simp
 
 /-- a digit after `/`, `<`, `>` decides for the one-character operator; the digit is not consumed -/
-theorem step_op_digit (vars : List Str) (off : Nat) (out : List Tok) (d : Char) (hd : isDigitC d = true) :
+theorem step_op_digit (vars : List Str) (off : Nat) (out : List Tok) (d : Char) (h1 : (d == '/') = false) (h2 : (d == '=') = false) :
     lexStep vars d (opSt off out .math mathOps [3, 4] ['/'] []) = .ok (sV (off + 1) (⟨.math, ['/'], false⟩ :: out)) ∧
     lexStep vars d (opSt off out .cond condOps [2, 4] ['<'] [.math]) = .ok (sV (off + 1) (⟨.cond, ['<'], false⟩ :: out)) ∧
     lexStep vars d (opSt off out .cond condOps [3, 5] ['>'] [.math]) = .ok (sV (off + 1) (⟨.cond, ['>'], false⟩ :: out)) := by
-  have h1 : (d == '/') = false := digit_ne d hd '/' (by decide)
-  have h2 : (d == '=') = false := digit_ne d hd '=' (by decide)
   refine ⟨?_, ?_, ?_⟩ <;>
     simp [lexStep, sO, sV, opSt, addChar, kwAdd, mathOps_eq, condOps_eq, startsWith, List.isPrefixOf, List.filter, h1, h2, resolve,
       appendSwitch, TokSt.closed, setValueCheck, TokSt.cls, TokSt.opp]
@@ -192,15 +190,16 @@ theorem At.append_right {inp : Array Char} {off : Nat} {a b : Str} (h : At inp o
   rw [this, e, List.getElem_append_right (by omega)]
   congr 1; omega
 
-/-- an operator, the scanner standing at its first character and a digit following it -/
+/-- an operator, the scanner standing at its first character; the character after it is neither `/` nor `=` (a digit, a blank) -/
 theorem steps_op (vars : List Str) (inp : Array Char) (off : Nat) (out : List Tok) (op : Str) (cls : Cls) (hop : (op, cls) ∈ opInfo)
-    (hat : At inp off op) (d : Char) (hd : isDigitC d = true) (hnext : ∃ h : off + op.length < inp.size, inp[off + op.length]'h = d) :
+    (hat : At inp off op) (d : Char) (hd1 : (d == '/') = false) (hd2 : (d == '=') = false)
+    (hnext : ∃ h : off + op.length < inp.size, inp[off + op.length]'h = d) :
     ∃ n, n ≤ 2 ∧ Steps vars inp n (sO off out) (sV (off + op.length) (⟨cls, op, false⟩ :: out)) := by
   obtain ⟨hn, en⟩ := hnext
   have h1 := step_op1 vars off out
   have hf := step_op_first vars off out
   have hs := step_op_second vars off out
-  have hg := step_op_digit vars off out d hd
+  have hg := step_op_digit vars off out d hd1 hd2
   simp only [opInfo, List.mem_cons, Prod.mk.injEq, List.mem_nil_iff, or_false] at hop
   -- the characters of the operator in the input
   have c0 : ∀ (h : 0 < op.length), ∃ h' : (sO off out).idx < inp.size, inp[(sO off out).idx]'h' = op[0] := by
@@ -320,7 +319,8 @@ theorem steps_flat (vars : List Str) (inp : Array Char) (rest : FlatRest) :
       simp only [Nat.add_zero] at h' e'
       refine ⟨h', ?_⟩
       rw [e']; simp [flatText, hd']
-    obtain ⟨nop, hnop, h3⟩ := steps_op vars inp (off + ds.length) (⟨.num, ds, false⟩ :: out) op cls ht.1 hatop.append_left d' hdig hnext
+    obtain ⟨nop, hnop, h3⟩ := steps_op vars inp (off + ds.length) (⟨.num, ds, false⟩ :: out) op cls ht.1 hatop.append_left d'
+      (digit_ne d' hdig '/' (by decide)) (digit_ne d' hdig '=' (by decide)) hnext
     -- the rest
     obtain ⟨n, offL, outL, dsL, hn, hL, hoffL, h4, htoks⟩ := ih ds' (off + ds.length + op.length) (⟨cls, op, false⟩ :: ⟨.num, ds, false⟩ :: out)
       hds' hr hatnum (by simp only [List.length_append] at hsize ⊢; omega)
